@@ -103,36 +103,56 @@ func (s *Schema) RemoveRel(typ string, rel string) {
 // The types must already exist in the schema.
 func (s *Schema) AddTwoWayRel(rel Rel) error {
 	rel1 := rel.Normalize()
-	rel2 := rel.Invert()
-	found1 := false
-	found2 := false
+	rel2 := rel1.Invert()
+
+	var typ1, typ2 *Type
 
 	for i := range s.Types {
 		if s.Types[i].Name == rel1.FromType {
-			found1 = true
+			typ1 = &s.Types[i]
+		}
 
-			err := s.Types[i].AddRel(rel1)
-			if err != nil {
-				return err
-			}
-		} else if s.Types[i].Name == rel2.FromType {
-			found2 = true
-
-			err := s.Types[i].AddRel(rel2)
-			if err != nil {
-				return err
-			}
+		if s.Types[i].Name == rel2.FromType {
+			typ2 = &s.Types[i]
 		}
 	}
 
-	if found1 && found2 {
-		return nil
+	// Both relationships are first added to copies of the types so that
+	// nothing is added to the schema if one of them is refused.
+	var tmp1, tmp2 Type
+
+	if typ1 != nil {
+		tmp1 = typ1.Copy()
+
+		err := tmp1.AddRel(rel1)
+		if err != nil {
+			return err
+		}
 	}
 
-	return fmt.Errorf(
-		"jsonapi: types %q and %q must exist",
-		rel1.FromType, rel2.FromType,
-	)
+	if typ2 != nil {
+		tmp2 = typ2.Copy()
+		if typ2 == typ1 {
+			tmp2 = tmp1
+		}
+
+		err := tmp2.AddRel(rel2)
+		if err != nil {
+			return err
+		}
+	}
+
+	if typ1 == nil || typ2 == nil {
+		return fmt.Errorf(
+			"jsonapi: types %q and %q must exist",
+			rel1.FromType, rel2.FromType,
+		)
+	}
+
+	_ = typ1.AddRel(rel1)
+	_ = typ2.AddRel(rel2)
+
+	return nil
 }
 
 // Rels returns all the relationships from the schema's types. For two-way
